@@ -228,6 +228,35 @@ def runtime_checks():
                                     violated='value at the constrained point differs from the prescribed value'))
             except Exception as e:
                 bad.append(dict(case=name, network_output_scale=scale, error=f'{type(e).__name__}: {e}'))
+    # intervals far from the origin compared with their length (a late time window, time stamps), end points representable in the working
+    # precision: the normalised coordinate is exactly 0 and 1 at the ends, so the end values are reproduced to rounding in either precision
+    import random
+    rng = random.Random(5)
+    windows = [(3719.0625, 3719.625), (-2936.25, -2933.875), (1048576.25, 1048577.5), (-65536.5, -65535.75)]
+    for _ in range(40):
+        a = rng.randint(-4000 * 16, 4000 * 16) / 16.0
+        windows.append((a, a + rng.randint(1, 48) / 16.0))
+    windows += [(float(2 ** 40 + 3), float(2 ** 40 + 8)), (-float(2 ** 36) - 0.5, -float(2 ** 36) + 2.25)]
+    for dt in (torch.float32, torch.float64):
+        eps = torch.finfo(dt).eps
+        net = Scaled(FCNN(1, 1, hidden_units=(6,)).to(dt), 1e3)
+        for t0, t1 in windows:
+            if dt == torch.float32 and abs(t0) > 2 ** 21:
+                continue
+            for cname, cond in (('DirichletBVP', DirichletBVP(t0, 1.25, t1, -0.75)), ('DoubleEndedBVP1D DD', DoubleEndedBVP1D(t0, t1, x_min_val=1.25, x_max_val=-0.75)),
+                                ('IVP', IVP(t0, 1.25))):
+                for end, pt, want in (('left', t0, 1.25), ('right', t1, -0.75)):
+                    if cname == 'IVP' and end == 'right':
+                        continue
+                    try:
+                        got = cond.enforce(net, torch.full((n, 1), pt, dtype=dt, requires_grad=True)).detach().reshape(-1)
+                        if not bool(torch.isfinite(got).all()) or float((got.double() - want).abs().max()) > 8 * eps * (1 + abs(want)):
+                            bad.append(dict(case=f'{cname} on an interval far from the origin, {end} end', interval=[t0, t1], dtype=str(dt), point=pt,
+                                            got=got.tolist(), want=want, violated='value at the constrained point differs from the prescribed value',
+                                            error_in_units_of_roundoff=float((got.double() - want).abs().max()) / eps))
+                    except Exception as e:
+                        bad.append(dict(case=f'{cname} on an interval far from the origin', interval=[t0, t1], dtype=str(dt), error=f'{type(e).__name__}: {e}'))
+    bad = bad[:8]
     return bad
 
 
